@@ -77,6 +77,13 @@ class SimReactor(object):
         self._push(dc)
         return dc
 
+    def callAtKeyed(self, when, key, f, *args, **kw):
+        """callLaterKeyed at an absolute simulated instant (equal instants must compare equal: no now+delay rounding)."""
+        dc = DelayedCall(max(when, self._now), f, args, kw, self._cancel, self._reset, seconds=self.true_seconds)
+        dc._sim_key = key
+        self._push(dc)
+        return dc
+
     def _push(self, dc):
         self._seq += 1
         dc._sim_seq = self._seq
